@@ -580,6 +580,7 @@ theorem luStep_inv {D R : Type} (LU : D → Nat → Option R) (s : LUState D R) 
           subst hr
           exact ⟨s.prec, e⟩
   | setItem d => intro r hr; simp [luStep] at hr
+  | setSlice d => intro r hr; simp [luStep] at hr
   | resize d => simp [LUOp.isResize] at ho
   | setPrec p => exact hi
 
@@ -601,6 +602,7 @@ theorem luStep_invStrong {D R : Type} (LU : D → Nat → Option R) (s : LUState
           subst hr
           exact e
   | setItem d => intro r hr; simp [luStep] at hr
+  | setSlice d => intro r hr; simp [luStep] at hr
   | resize d => simp [LUOp.isResize] at ho
   | setPrec p => simp [LUOp.isSetPrec] at hp
 
